@@ -35,9 +35,18 @@ def _features(region, delegates_frombuffer=False):
             if isinstance(x, ast.Call) and isinstance(x.func, ast.Attribute) and x.func.attr.startswith('getslice'):
                 slicers.add(x.func.attr)
     # `length = size - offset` followed by a negative-length test also rejects an offset beyond the data
-    derived = any(isinstance(x, ast.Assign) and ast.unparse(x.targets[0]) == 'length' and '- offset' in ast.unparse(x.value) for s in region for x in ast.walk(s))
-    if derived and any(any(d.replace(' ', '') == 'length<0' for d in ds) for i, ds in txts):
-        offbeyond = True
+    derived = [x for s in region for x in ast.walk(s) if isinstance(x, ast.Assign) and ast.unparse(x.targets[0]) == 'length' and '- offset' in ast.unparse(x.value)]
+    if derived:
+        # the negative-length test must run on the path that derived the length: after it, and not in a sibling branch
+        sibling = set()
+        for s in region:
+            for x in ast.walk(s):
+                if isinstance(x, ast.If) and any(derived[0] is y for b in x.body for y in ast.walk(b)):
+                    for b in x.orelse:
+                        for y in ast.walk(b):
+                            sibling.add(id(y))
+        if any(i.lineno > derived[0].lineno and id(i) not in sibling and any(d.replace(' ', '') == 'length<0' for d in ds) for i, ds in txts):
+            offbeyond = True
     return {'negative length': neglen, 'offset beyond data (no length)': offbeyond, 'offset + length beyond data': lenbeyond,
             'slicers': slicers}
 
